@@ -578,7 +578,17 @@ class ForestRuleExtractor:
         """
         Find a rule that have the given rule key.
         """
-        all_classes = (rule_key.parent,) + rule_key.children
+        key_classes = (rule_key.parent,) + rule_key.children
+        # A strategy factory may have produced the rule while another class was
+        # expanded: the classes of the key are tried first, then all the others.
+        all_classes = itertools.chain(
+            key_classes,
+            (
+                label
+                for label in range(len(self.classdb.label_to_info))
+                if label not in key_classes
+            ),
+        )
         all_normal_rules = itertools.chain.from_iterable(
             self._rules_for_class(c) for c in all_classes
         )
